@@ -39,6 +39,55 @@ func globMatch(g glob.Glob, s string) (ok bool) {
 	return g.Match(s)
 }
 
+// compileGlob compiles a glob pattern. gobwas/glob matches a pattern with a
+// literal prefix and suffix around a '*' also when prefix and suffix overlap
+// in the input ('a.*.com' matches 'a.com', '/a/*/a' matches '/a/a'). The
+// returned glob therefore also requires the input to be at least as long as
+// the literal text of the pattern.
+func compileGlob(pattern string) (glob.Glob, error) {
+	g, err := glob.Compile(pattern)
+	if err != nil {
+		return nil, err
+	}
+	return minLenGlob{Glob: g, min: minMatchLen(pattern)}, nil
+}
+
+type minLenGlob struct {
+	glob.Glob
+	min int
+}
+
+func (g minLenGlob) Match(s string) bool {
+	return len(s) >= g.min && g.Glob.Match(s)
+}
+
+// minMatchLen returns a lower bound for the length of a string which
+// matches the pattern: literal characters count, '?' and a character
+// class stand for at least one character, '*' and alternatives for none.
+func minMatchLen(pattern string) int {
+	n := 0
+	for i := 0; i < len(pattern); i++ {
+		switch pattern[i] {
+		case '*':
+		case '\\':
+			i++
+			n++
+		case '[':
+			if j := strings.IndexByte(pattern[i:], ']'); j > 0 {
+				i += j
+			}
+			n++
+		case '{':
+			if j := strings.IndexByte(pattern[i:], '}'); j > 0 {
+				i += j
+			}
+		default:
+			n++
+		}
+	}
+	return n
+}
+
 // iPrefixMatcher matches path to the routes' path ignoring case
 func iPrefixMatcher(uri string, r *Route) bool {
 	// todo(fs): if this turns out to be a performance issue we should cache
